@@ -71,7 +71,7 @@ def eq_on(P, name, A, B, assume, sel=None):
   if sel is not None:
     A = np.array([A[i] for i in sel], dtype=object)
     B = np.array([B[i] for i in sel], dtype=object)
-  return P.equal(name, A.reshape(-1), B.reshape(-1), assume)
+  return P.equal(name, A.reshape(-1), B.reshape(-1), assume, force=True)
 
 
 def work(t):
